@@ -356,3 +356,247 @@ theorem drain_obs (c : Conn) (hwf : c.rd.WF) :
       have := writeLoop_not_done c.vec c.w hq (by rw [hw]; exact ho)
       rw [hw] at this
       exact absurd hfin this
+
+/-! ## `read_chunking_independent` -/
+
+/-- **Chunking independence, general form.**  Two connections in the same read state, fed scripts
+that carry the same bytes and end the same way — cut into chunks in any two ways, with any number of
+`pending`s anywhere — show the consumer the same messages and the same terminal event.  The send
+sides may differ arbitrarily (other messages queued, other acceptance scripts), as long as each run
+ends with no message half-sent. -/
+theorem read_chunking_independent (c₁ c₂ : Conn) (hwf : c₁.rd.WF) (hrd : c₁.rd = c₂.rd)
+    (hbytes : bytesOf c₁.rs = bytesOf c₂.rs) (hend : endingOf c₁.rs = endingOf c₂.rs)
+    (hq₁ : AllOk c₁.w.queue) (hq₂ : AllOk c₂.w.queue)
+    (hfin₁ : (drain c₁).2.w.send = none) (hfin₂ : (drain c₂).2.w.send = none) :
+    obs (drain c₁).1 = obs (drain c₂).1 := by
+  rw [(drain_obs c₁ hwf).2 hq₁ hfin₁, (drain_obs c₂ (hrd ▸ hwf)).2 hq₂ hfin₂, hrd, hbytes, hend]
+
+/-- a connection with nothing to send -/
+def Quiet (w : WSide) : Prop := w.queue = [] ∧ w.send = none
+
+theorem writeLoop_quiet (vec : Bool) (w : WSide) (h : Quiet w) : writeLoop vec w = (w, .done) := by
+  unfold writeLoop
+  obtain ⟨hq, hs⟩ := h
+  split <;> simp_all
+  split <;> simp_all
+
+theorem pollNext_quiet (c : Conn) (h : Quiet c.w) : (pollNext c).1.w = c.w := by
+  unfold pollNext
+  rw [writeLoop_quiet c.vec c.w h]
+
+theorem drain_quiet (c : Conn) (h : Quiet c.w) : (drain c).2.w = c.w := by
+  fun_induction drain c with
+  | case1 c c' m hp r ih =>
+    have := pollNext_quiet c h; rw [hp] at this
+    simp only at this
+    rw [ih (this ▸ h), this]
+  | case2 c c' hp r ih =>
+    have := pollNext_quiet c h; rw [hp] at this
+    simp only at this
+    rw [ih (this ▸ h), this]
+  | case3 c c' it hnm hnp hp =>
+    have := pollNext_quiet c h; rw [hp] at this
+    exact this
+
+/-- a fresh connection (`TcpStream::from_stream`) over a socket with read script `rs` -/
+def fresh (rs : List REv) (vec : Bool := true) : Conn := { vec := vec, rs := rs }
+
+/-- **Chunking independence** for a freshly accepted connection with nothing to send: the
+delivered messages and the terminal event are a function of the bytes and of how the stream ends. -/
+theorem read_chunking_independent_fresh (s₁ s₂ : List REv)
+    (hbytes : bytesOf s₁ = bytesOf s₂) (hend : endingOf s₁ = endingOf s₂) :
+    obs (drain (fresh s₁)).1 = obs (drain (fresh s₂)).1 := by
+  apply read_chunking_independent
+  · simp [fresh, RdSt.WF]
+  · rfl
+  · exact hbytes
+  · exact hend
+  · simp [fresh, AllOk]
+  · simp [fresh, AllOk]
+  · rw [drain_quiet _ (by simp [fresh, Quiet])]; rfl
+  · rw [drain_quiet _ (by simp [fresh, Quiet])]; rfl
+
+theorem fresh_obs (s : List REv) (vec : Bool) :
+    obs (drain (fresh s vec)).1 = run (.lenBytes []) (bytesOf s) (endingOf s) := by
+  have := (drain_obs (fresh s vec) (by simp [fresh, RdSt.WF])).2 (by simp [fresh, AllOk])
+    (by rw [drain_quiet _ (by simp [fresh, Quiet])]; rfl)
+  simpa [fresh] using this
+
+/-- `pending` events are invisible -/
+theorem pending_invisible (s₁ s₂ : List REv) :
+    obs (drain (fresh (s₁ ++ .pending :: s₂))).1 = obs (drain (fresh (s₁ ++ s₂))).1 := by
+  apply read_chunking_independent_fresh
+  · induction s₁ with
+    | nil => simp [bytesOf]
+    | cons e t ih => cases e <;> simp [bytesOf, ih]
+  · induction s₁ with
+    | nil => simp [endingOf]
+    | cons e t ih => cases e <;> simp [endingOf, ih]
+
+/-- splitting a chunk anywhere is invisible -/
+theorem split_invisible (s₁ s₂ : List REv) (a b : Bytes) :
+    obs (drain (fresh (s₁ ++ .data (a ++ b) :: s₂))).1 = obs (drain (fresh (s₁ ++ .data a :: .data b :: s₂))).1 := by
+  apply read_chunking_independent_fresh
+  · induction s₁ with
+    | nil => simp [bytesOf]
+    | cons e t ih => cases e <;> simp [bytesOf, ih]
+  · induction s₁ with
+    | nil => simp [endingOf]
+    | cons e t ih => cases e <;> simp [endingOf, ih]
+
+/-- non-vacuity: two really different chunkings (one with `pending`s, one byte at a time) of the
+same five bytes -/
+example : bytesOf [.data [0, 3, 97, 98, 99], .eof] = bytesOf [.pending, .data [0], .pending, .data [3], .data [97], .pending, .data [98, 99], .eof]
+    ∧ endingOf [.data [0, 3, 97, 98, 99], .eof] = endingOf [.pending, .data [0], .pending, .data [3], .data [97], .pending, .data [98, 99], .eof] := by
+  decide
+
+example : obs (drain (fresh [.pending, .data [0], .pending, .data [3], .data [97], .pending, .data [98, 99], .eof])).1
+    = ([[97, 98, 99]], .clean) := by
+  rw [fresh_obs]; decide
+
+/-! ## `read_frames` -/
+
+theorem frame_length (m : Bytes) : (frame m).length = m.length + 2 := by simp [frame]
+
+theorem u16be_frame (m : Bytes) : u16be [m.length / 256, m.length % 256] = m.length := by
+  simp [u16be]; omega
+
+/-- the byte-wise reader on one whole frame -/
+theorem run_frame (m : Bytes) (hm : Framable m) (rest : Bytes) (e : Ending) :
+    run (.lenBytes []) (frame m ++ rest) e =
+      (m :: (run (.lenBytes []) rest e).1, (run (.lenBytes []) rest e).2) := by
+  have h1 := run_chunk [m.length / 256, m.length % 256] (st := .lenBytes []) (by simp [RdSt.WF])
+    (by simp) (by simp [RdSt.need]) (m ++ rest) e
+  have hlen : 0 < m.length := by
+    cases m with
+    | nil => exact absurd rfl hm.1
+    | cons a t => simp
+  have h2 := run_chunk m (st := .datBytes m.length []) (by simp [RdSt.WF]; omega) hm.1
+    (by simp [RdSt.need]) rest e
+  simp only [frame, List.append_assoc]
+  rw [h1]
+  simp only [RdSt.absorb, List.nil_append, List.length_cons, List.length_nil, u16be_frame, after]
+  simp only [show ¬ (0 + 1 + 1 < 2) by omega, if_false, after]
+  rw [h2]
+  simp [RdSt.absorb, after]
+
+theorem run_frames (ms : List Bytes) (hms : ∀ m ∈ ms, Framable m) (rest : Bytes) (e : Ending) :
+    run (.lenBytes []) (frames ms ++ rest) e =
+      (ms ++ (run (.lenBytes []) rest e).1, (run (.lenBytes []) rest e).2) := by
+  induction ms with
+  | nil => simp [frames]
+  | cons m t ih =>
+    simp only [frames, List.append_assoc]
+    rw [run_frame m (hms m (by simp)), ih (fun x hx => hms x (by simp [hx]))]
+    simp
+
+/-- how a stream that stops inside a frame ends -/
+def cut : Ending → Terminal
+  | .open => .blocked
+  | _ => .error
+
+/-- the byte-wise reader on a frame that was cut short: no message, and an error when the stream closes -/
+theorem run_partial (m : Bytes) (hm : Framable m) (k : Nat) (hk0 : 0 < k) (hk : k < (frame m).length)
+    (e : Ending) : run (.lenBytes []) ((frame m).take k) e = ([], cut e) := by
+  have hlen : 0 < m.length := by
+    cases m with
+    | nil => exact absurd rfl hm.1
+    | cons a t => simp
+  rw [frame_length] at hk
+  match k, hk0 with
+  | 1, _ =>
+    simp [frame, run, RdSt.need, RdSt.absorb, atEnd]
+    cases e <;> simp [cut]
+  | k + 2, _ =>
+    have h1 := run_chunk [m.length / 256, m.length % 256] (st := .lenBytes []) (by simp [RdSt.WF])
+      (by simp) (by simp [RdSt.need]) (m.take k) e
+    have : (frame m).take (k + 2) = [m.length / 256, m.length % 256] ++ m.take k := by simp [frame]
+    rw [this, h1]
+    simp only [RdSt.absorb, List.nil_append, List.length_cons, List.length_nil, u16be_frame, after]
+    simp only [show ¬ (0 + 1 + 1 < 2) by omega, if_false, after]
+    by_cases hk2 : k = 0
+    · subst hk2
+      simp [run, atEnd]
+      cases e <;> simp [cut]
+    · have hkm : k < m.length := by omega
+      have htl : (m.take k).length = k := by rw [List.length_take]; omega
+      have hne : m.take k ≠ [] := by
+        intro h; rw [h] at htl; simp at htl; omega
+      have h2 := run_chunk (m.take k) (st := .datBytes m.length []) (by simp [RdSt.WF]; omega) hne
+        (by rw [htl]; simp [RdSt.need]; omega) [] e
+      rw [List.append_nil] at h2
+      rw [h2]
+      simp only [RdSt.absorb, List.nil_append, htl, hkm, if_true, after, run, atEnd]
+      cases e <;> simp [cut]
+
+/-- every prefix of a framed stream yields a prefix of the framed messages -/
+theorem run_prefix (ms : List Bytes) (hms : ∀ m ∈ ms, Framable m) (e : Ending) :
+    ∀ k, (run (.lenBytes []) ((frames ms).take k) e).1 <+: ms := by
+  induction ms with
+  | nil => intro k; simp [frames, run]
+  | cons m t ih =>
+    intro k
+    have hm := hms m (by simp)
+    simp only [frames]
+    by_cases hk : k < (frame m).length
+    · rw [List.take_append_of_le_length (by omega)]
+      by_cases hk0 : k = 0
+      · subst hk0; simp [run]
+      · rw [run_partial m hm k (by omega) hk]; simp
+    · rw [List.take_append, List.take_of_length_le (by omega), run_frame m hm]
+      simp only [List.cons_prefix_cons, true_and]
+      exact ih (fun x hx => hms x (by simp [hx])) _
+
+/-- **Framing.**  If the bytes the peer sent are exactly `frame m₁ ++ … ++ frame mₖ` (non-empty
+messages), then — for every chunking, every interleaving of `pending`s — the stream delivers
+exactly `[m₁ … mₖ]`, and then ends cleanly if the peer closed, with an error if the socket failed,
+or waits if the connection stays open. -/
+theorem read_frames (s : List REv) (vec : Bool) (ms : List Bytes) (hms : ∀ m ∈ ms, Framable m)
+    (hb : bytesOf s = frames ms) :
+    obs (drain (fresh s vec)).1 =
+      (ms, match endingOf s with | .eof => .clean | .err => .error | .open => .blocked) := by
+  rw [fresh_obs, hb]
+  have := run_frames ms hms [] (endingOf s)
+  rw [List.append_nil] at this
+  rw [this]
+  cases endingOf s <;> simp [run, atEnd]
+
+/-- **Closed inside a frame.**  If after `k` whole frames the peer closes inside the next length
+prefix (`j = 1`) or inside the next body (`2 ≤ j < 2 + len`), the stream delivers the `k`
+messages and then yields an error — never a truncated message, never a clean end. -/
+theorem read_frames_truncated (s : List REv) (vec : Bool) (ms : List Bytes) (hms : ∀ m ∈ ms, Framable m)
+    (m : Bytes) (hm : Framable m) (j : Nat) (hj0 : 0 < j) (hj : j < (frame m).length)
+    (hb : bytesOf s = frames ms ++ (frame m).take j) :
+    obs (drain (fresh s vec)).1 = (ms, cut (endingOf s)) := by
+  rw [fresh_obs, hb, run_frames ms hms, run_partial m hm j hj0 hj]
+  simp
+
+/-! ## no truncated, merged or duplicated message -/
+
+/-- **Safety.**  Take any connection that is at a message boundary, with *any* send side (messages
+queued, half-sent, a write half that blocks, fails, or a message for a foreign peer) and any read
+script whose bytes are a prefix of `frame m₁ ++ … ++ frame mₖ` — i.e. any chunking, any
+`pending`s, closed / failed / left open at any position.  Then the delivered messages are a prefix
+of `[m₁ … mₖ]`: each one whole, in order, none twice, none merged, none invented. -/
+theorem no_truncated_merged_duplicated (c : Conn) (hrd : c.rd = .lenBytes [])
+    (ms : List Bytes) (hms : ∀ m ∈ ms, Framable m) (hb : bytesOf c.rs <+: frames ms) :
+    (obs (drain c).1).1 <+: ms := by
+  have h := (drain_obs c (by rw [hrd]; simp [RdSt.WF])).1
+  rw [hrd, List.prefix_iff_eq_take.mp hb] at h
+  exact h.trans (run_prefix ms hms _ _)
+
+/-- a delivered message is never empty and never longer than its length prefix allows … it is one
+of the framed messages -/
+theorem delivered_mem (c : Conn) (hrd : c.rd = .lenBytes [])
+    (ms : List Bytes) (hms : ∀ m ∈ ms, Framable m) (hb : bytesOf c.rs <+: frames ms) :
+    ∀ m ∈ (obs (drain c).1).1, m ∈ ms :=
+  fun _ hm => (no_truncated_merged_duplicated c hrd ms hms hb).subset hm
+
+/-- non-vacuity of the hypotheses (`Framable`, prefix of a framed stream, a send side in trouble) -/
+example : ∃ c : Conn, c.rd = .lenBytes [] ∧ c.w.queue ≠ [] ∧ c.w.ws = [.accept 1, .err] ∧
+    bytesOf c.rs <+: frames [[97], [98, 99]] ∧ (∀ m ∈ [[97], [98, 99]], Framable m) :=
+  ⟨{ rs := [.data [0], .pending, .data [1, 97, 0], .eof], w := { queue := [([1], true)], ws := [.accept 1, .err] } },
+    rfl, by simp, rfl, by decide, by simp [Framable]⟩
+
+example : obs (drain (fresh [.data [0], .pending, .data [1, 97, 0], .eof])).1 = ([[97]], .error) := by
+  rw [fresh_obs]; decide
